@@ -179,6 +179,23 @@ func (g *optGen) emitRows(b *strings.Builder, name string, rows []optRow) {
 // acts translates the body of one `case` clause of the ParseArguments switch
 func (g *optGen) acts(body []ast.Stmt) []string {
 	var out []string
+	// rule := pc.poptGetOptArg(); if <rule is neither "- …" nor "+ …" nor "!"> { return err }; append(filterRules, rule)
+	if len(body) == 3 && g.r.src(body[0]) == "rule := pc.poptGetOptArg()" &&
+		g.r.src(body[2]) == "opts.filterRules = append(opts.filterRules, rule)" {
+		if is, ok := body[1].(*ast.IfStmt); ok && is.Init == nil && is.Else == nil && len(is.Body.List) >= 1 &&
+			g.r.src(is.Cond) == `!strings.HasPrefix(rule, "- ") && !strings.HasPrefix(rule, "+ ") && rule != "!"` {
+			if ret, ok := is.Body.List[len(is.Body.List)-1].(*ast.ReturnStmt); ok && len(ret.Results) == 1 && g.r.src(ret.Results[0]) != "nil" && !strings.HasPrefix(g.r.src(ret.Results[0]), "&ExitError") {
+				onlyComments := true
+				for _, st := range is.Body.List[:len(is.Body.List)-1] {
+					_ = st
+					onlyComments = false
+				}
+				if onlyComments {
+					return []string{".ruleChecked"}
+				}
+			}
+		}
+	}
 	for _, st := range body {
 		src := g.r.src(st)
 		switch s := st.(type) {
@@ -512,7 +529,7 @@ func genOptTable(r *repo) string {
 	b.WriteString("inductive Kind | none | str | int | val | other\nderiving DecidableEq, Repr\n\n")
 	b.WriteString("structure Row where\n  long : List Char\n  short : List Char\n  kind : Kind\n  target : Option Field\n  val : Int\nderiving Repr\n\n")
 	b.WriteString("inductive Words | info | debug\nderiving DecidableEq, Repr\n\n")
-	b.WriteString("/-- one statement of a `case` clause of the `switch opt` in ParseArguments -/\ninductive Act\n  | set (f : Field) (v : Int)\n  | setIfZero (f : Field) (v : Int)\n  | incr (f : Field)\n  | requireNonzero (f : Field)\n  | setStr (f : Field)\n  | rule (pfx : List Char)\n  | words (w : Words)\n  | version\n  | daemonMode\n  | exit\n  | fail\n  | retOk\n  | other (src : String)\nderiving Repr\n\n")
+	b.WriteString("/-- one statement of a `case` clause of the `switch opt` in ParseArguments -/\ninductive Act\n  | set (f : Field) (v : Int)\n  | setIfZero (f : Field) (v : Int)\n  | incr (f : Field)\n  | requireNonzero (f : Field)\n  | setStr (f : Field)\n  | rule (pfx : List Char)\n  | ruleChecked\n  | words (w : Words)\n  | version\n  | daemonMode\n  | exit\n  | fail\n  | retOk\n  | other (src : String)\nderiving Repr\n\n")
 	g.emitRows(&b, "clientRows", client)
 	g.emitRows(&b, "gokrazyRows", gok)
 	g.emitRows(&b, "gokrDaemonRows", gdmn)
